@@ -44,128 +44,7 @@ void __wrap_login_calculate(char *buf, int buflen, const char *pass, int seed)
 		buf[i] = (char)(((unsigned char)pass[i] + ((s >> (8 * (i % 4))) & 0xff) * (i + 1)) & 0xff);
 }
 
-static unsigned int fnv_add(unsigned int h, const unsigned char *b, size_t n)
-{
-	size_t i;
-	for (i = 0; i < n; i++) {
-		h ^= b[i];
-		h *= 16777619u;
-	}
-	return h;
-}
-
-static unsigned int fnv16(unsigned int h, unsigned v)
-{
-	unsigned char b[2] = { (unsigned char)(v >> 8), (unsigned char)v };
-	return fnv_add(h, b, 2);
-}
-
-static void addr_parts(const struct sockaddr_storage *ss, int *fam, const unsigned char **ip, int *iplen, int *port)
-{
-	*fam = ss->ss_family;
-	if (ss->ss_family == AF_INET) {
-		const struct sockaddr_in *a = (const struct sockaddr_in *)ss;
-		*ip = (const unsigned char *)&a->sin_addr;
-		*iplen = 4;
-		*port = ntohs(a->sin_port);
-	} else if (ss->ss_family == AF_INET6) {
-		const struct sockaddr_in6 *a = (const struct sockaddr_in6 *)ss;
-		*ip = (const unsigned char *)&a->sin6_addr;
-		*iplen = 16;
-		*port = ntohs(a->sin6_port);
-	} else {
-		*ip = (const unsigned char *)"";
-		*iplen = 0;
-		*port = 0;
-	}
-}
-
-static unsigned int hash_addr(unsigned int h, const struct sockaddr_storage *ss)
-{
-	int fam, iplen, port;
-	const unsigned char *ip;
-	unsigned char f;
-	addr_parts(ss, &fam, &ip, &iplen, &port);
-	f = fam;
-	h = fnv_add(h, &f, 1);
-	h = fnv_add(h, ip, iplen);
-	return fnv16(h, port);
-}
-
-static unsigned int hash_q(const struct query *q, int with_from2)
-{
-	unsigned int h = 2166136261u;
-	unsigned char z = 0;
-	h = fnv_add(h, (const unsigned char *)q->name, strnlen(q->name, sizeof(q->name)));
-	h = fnv_add(h, &z, 1);
-	h = fnv16(h, q->type);
-	h = hash_addr(h, &q->from);
-	if (with_from2)
-		h = hash_addr(h, &q->from2);
-	return h;
-}
-
-static int enc_id(const struct encoder *e)
-{
-	if (e == &base64_ops) return 1;
-	if (e == &base64u_ops) return 2;
-	if (e == &base128_ops) return 3;
-	return 0;
-}
-
-static void print_state(void)
-{
-	extern unsigned usercount;
-	unsigned i;
-	int k;
-	for (i = 0; i < usercount; i++) {
-		struct tun_user *u = srv_user(i);
-		unsigned int hc = 2166136261u, hp = 2166136261u, hm = 2166136261u, hqd = 2166136261u;
-		if (!u->active)
-			continue;
-		for (k = 0; k < DNSCACHE_LEN; k++) {
-			unsigned char z = 0;
-			int al = u->dnscache_answerlen[k];
-			hc = fnv16(hc, u->dnscache_q[k].id);
-			hc = fnv16(hc, u->dnscache_q[k].type);
-			hc = fnv_add(hc, (unsigned char *)u->dnscache_q[k].name, strnlen(u->dnscache_q[k].name, 256));
-			hc = fnv_add(hc, &z, 1);
-			hc = fnv16(hc, al);
-			if (al > 0)
-				hc = fnv_add(hc, (unsigned char *)u->dnscache_answer[k], al);
-		}
-		for (k = 0; k < QMEMPING_LEN; k++) {
-			hp = fnv16(hp, u->qmemping_type[k]);
-			hp = fnv_add(hp, u->qmemping_cmc + 4 * k, 4);
-		}
-		for (k = 0; k < QMEMDATA_LEN; k++) {
-			hm = fnv16(hm, u->qmemdata_type[k]);
-			hm = fnv_add(hm, u->qmemdata_cmc + 4 * k, 4);
-		}
-		for (k = 0; k < OUTPACKETQ_LEN; k++) {
-			hqd = fnv16(hqd, u->outpacketq[k].len & 0xffff);
-			hqd = fnv_add(hqd, (unsigned char *)u->outpacketq[k].data, u->outpacketq[k].len > 0 ? u->outpacketq[k].len : 0);
-		}
-		printf("%u:A%d%d%d%d,L%ld,S%d,C%d%d,E%d,D%d,F%d,", i, u->authenticated, u->authenticated_raw,
-		       u->options_locked, u->disabled, (long)u->last_pkt, u->seed, u->conn == CONN_DNS_NULL, u->lazy,
-		       enc_id(u->encoder), (unsigned char)u->downenc, u->fragsize);
-		printf("H%08x,", hash_addr(2166136261u, &u->host));
-		if (u->conn == CONN_DNS_NULL)
-			printf("Q%u/%u/%08x,R%u/%u/%d/%08x,", u->q.id, u->q.id2, hash_q(&u->q, u->q.id2 != 0),
-			       u->q_sendrealsoon.id, u->q_sendrealsoon.id2, u->q_sendrealsoon_new,
-			       hash_q(&u->q_sendrealsoon, u->q_sendrealsoon.id2 != 0));
-		else
-			printf("Q%08x,", hash_addr(2166136261u, &u->q.from));
-		printf("I%d/%d/%d/%d/%08x,", u->inpacket.len, u->inpacket.offset, u->inpacket.seqno, u->inpacket.fragment,
-		       fnv_add(2166136261u, (unsigned char *)u->inpacket.data, u->inpacket.len > 0 ? u->inpacket.len : 0));
-		printf("O%d/%d/%d/%d/%d/%08x,", u->outpacket.len, u->outpacket.offset, u->outpacket.sentlen,
-		       u->outpacket.seqno, u->outpacket.fragment,
-		       fnv_add(2166136261u, (unsigned char *)u->outpacket.data, u->outpacket.len > 0 ? u->outpacket.len : 0));
-		printf("X%d,U%d/%d/%08x,K%d/%08x,P%d/%08x,M%d/%08x ", u->outfragresent, u->outpacketq_filled,
-		       u->outpacketq_nexttouse, hqd, u->dnscache_lastfilled, hc, u->qmemping_lastfilled, hp,
-		       u->qmemdata_lastfilled, hm);
-	}
-}
+#include "digest.inc"
 
 static void print_outputs(void)
 {
@@ -305,7 +184,7 @@ int handle_line(char *l)
 		}
 		print_outputs();
 		printf(" | ");
-		print_state();
+		print_srv_state();
 	}
 	putchar('\n');
 	return 1;
